@@ -749,11 +749,25 @@ def ob_generic_reference():
     def fn():
         u = _utils()
         n = 0
-        for registered in (False, True):
+        class _Falsy(jh.Obj):
+            """a registered object whose truth value is False (an empty Taxa list, a Taxon without attributes, a zero): only identity counts"""
+            __slots__ = ()
+
+            def __bool__(self):
+                return False
+
+            def __len__(self):
+                return 0
+
+            def __eq__(self, other):
+                return False
+
+            __hash__ = object.__hash__
+        for registered in (False, True, "falsy"):
             run = jh.Run(["p"])
             R = jh.SymId("R", run.log)
             if registered:
-                o = jh.Obj("pre:R")
+                o = _Falsy("pre:R") if registered == "falsy" else jh.Obj("pre:R")
                 dict.__setitem__(run.dic, R, o)
                 run.pre[R] = o
             with jh.patched(u.__dict__, get_class=_no_get_class):
@@ -764,10 +778,19 @@ def ob_generic_reference():
             bad = check_call(run, run.calls[0], u.JSONParseError) + check_log(run)
             if bad:
                 spec = ["R"]
-                specs = ([{"id": "R", "type": "Parameter", "tensor": [1.0]}] if registered else []) + spec
+                specs = ([{"id": "R", "type": "Parameter", "tensor": [1.0]}] if registered is True else [{"id": "R", "type": "Taxon"}] if registered else []) + spec
                 confirmed, replay = None, None
                 if not registered and "exc" not in run.calls[0]:
                     replay = {"kind": "custom", "contract": "C13", "func": "replay_spec", "args": {"specs": specs, "expect": "reject"}}
+                    try:
+                        confirmed = not replay_spec(replay["args"])[0]
+                    except Exception as e:
+                        jh.reraise_harness(e)
+                elif registered == "falsy":
+                    # real falsy objects: a Taxon without attributes is an empty UserDict, an empty Taxa an empty UserList
+                    specs = [{"id": "taxa", "type": "Taxa", "taxa": [{"id": "A", "type": "Taxon"}, {"id": "B", "type": "Taxon"}]},
+                             {"id": "empty", "type": "Taxa", "taxa": []}, {"id": "clade", "type": "Taxa", "taxa": ["A", "B"]}, "empty"]
+                    replay = {"kind": "custom", "contract": "C13", "func": "replay_spec", "args": {"specs": specs, "expect": "accept"}}
                     try:
                         confirmed = not replay_spec(replay["args"])[0]
                     except Exception as e:
@@ -1239,7 +1262,7 @@ def ob_remove_comments_enum(bounds):
                 exp = clean_oracle(orig)
                 if not _same_json(x, exp) or _residue(x) or ret is not None:
                     raise Refuted("remove_comments(%s) = %s, expected %s" % (json.dumps(orig), json.dumps(x), json.dumps(exp)),
-                                  witness={"input": orig, "got": x, "expected": exp}, replay=None, confirmed=None)
+                                  witness={"input": orig, "got": x, "expected": exp}, replay=None, confirmed=True)
                 n += 1
         if n == 0:
             raise Undecided("empty enumeration")
@@ -1363,6 +1386,12 @@ def ob_expand_plates(tier):
             for k in ("star", "var", "none"):
                 for ne in (False, True):
                     makers.append((lambda r, k, ne: (lambda n: _plate(r, k, ne)))(r, k, ne))
+        # a plate whose object contains a plate of its own (the inner ids use both variables)
+        for r in ("0:2", "1:3"):
+            for r2 in ("0:1", "0:2"):
+                makers.append((lambda r, r2: (lambda n: {"type": "torchtree.Plate", "range": r, "var": "i", "object": {
+                    "id": "x${i}", "type": STUB_TYPE, "children": [{"type": "torchtree.Plate", "range": r2, "var": "j", "object": {
+                        "id": "y${i}_${j}", "type": STUB_TYPE, "children": []}}]}}))(r, r2))
         n = 0
         loaded = 0
         maxn = 3 if tier == "thorough" else 2
@@ -1384,7 +1413,7 @@ def ob_expand_plates(tier):
                         got, gexc = None, e
                     if type(eexc) is not type(gexc) or (eexc is None and not _same_json(got, exp)):
                         raise Refuted("expand_plates(%s) = %s / %r, expected %s / %r" % (json.dumps(orig), json.dumps(got), gexc, json.dumps(exp), eexc),
-                                      witness={"input": orig, "got": got, "expected": exp}, replay=None, confirmed=None)
+                                      witness={"input": orig, "got": got, "expected": exp}, replay=None, confirmed=True)
                     n += 1
                     # end to end: ids produced by plates are subject to the duplicate-id rule like any other
                     if eexc is None and wrap != 2:
@@ -1556,6 +1585,94 @@ def ob_real_sharing():
                 "statement": "real classes: three holders of one Parameter id hold the same instance; an update through one holder changes "
                              "the value computed by the other"}
     return fn
+
+
+def _run_main_dry(spec):
+    """the real command-line entry point `torchtree.torchtree.main()` on a specification file, with --dry: returns (registry, error text).
+    The registry is observed through the module-level name `process_objects` that main() calls for every top-level element."""
+    import contextlib
+    import io
+    import logging
+    import shutil
+    import sys
+    import tempfile
+    import torch
+    import torchtree.torchtree as tt
+    d = tempfile.mkdtemp(prefix="vt_c13main_")
+    seen = {}
+    real_po = tt.process_objects
+
+    def spy(element, dic):
+        out = real_po(element, dic)
+        seen["dic"] = dic
+        return out
+    old_argv, old_dtype = sys.argv, torch.get_default_dtype()
+    err = io.StringIO()
+    handler = logging.StreamHandler(err)
+    logging.getLogger().addHandler(handler)
+    try:
+        fn = os.path.join(d, "spec.json")
+        with open(fn, "w") as fp:
+            json.dump(spec, fp)
+        sys.argv = ["torchtree", fn, "--dry", "-s", "1"]
+        with jh.patched(tt.__dict__, process_objects=spy), contextlib.redirect_stdout(io.StringIO()):
+            tt.main()
+    finally:
+        logging.getLogger().removeHandler(handler)
+        sys.argv = old_argv
+        torch.set_default_dtype(old_dtype)
+        shutil.rmtree(d, ignore_errors=True)
+    return seen.get("dic", {}), err.getvalue().strip()
+
+
+def ob_main_pipeline():
+    """the pre-processing done by the real main() (comments, ignored objects, plates - in whatever order and through whatever helpers
+    the current source uses) on whole specification files: the objects registered, and the value of the joint density, are those of the
+    same file with the ignored parts deleted by hand"""
+    def fn():
+        E = lambda i, y: {"id": i, "type": "Distribution", "distribution": "torch.distributions.Exponential", "x": _P(i + ".y", y), "parameters": {"rate": _P(i + ".r", 2.0)}}
+        Nrm = lambda i, v: _N(i, _P(i + ".x", v), _P(i + ".l", 0.0), _P(i + ".s", 1.5))
+        plate = lambda ident, rng_, obj, **kw: dict({"id": ident, "type": "Plate", "range": rng_, "var": "i", "object": obj}, **kw)
+        active = plate("pl.a", "0:2", E("e.${i}", 0.4))
+        cases = {
+            "an ignored plate next to an active one": (
+                [_J("joint", [plate("pl.i", "0:3", Nrm("n.${i}", 0.3), ignore=True), active])], [_J("joint", [active])]),
+            "an ignored plate that is a disabled alternative for ids defined elsewhere": (
+                [_J("joint", [plate("pl.i", "0:2", Nrm("e.${i}", 0.3), ignore=True), active])], [_J("joint", [active])]),
+            "a plate under an underscore key, a comment inside the template": (
+                [dict(_J("joint", [plate("pl.a", "0:2", dict(E("e.${i}", 0.4), _note="generated"))]), _alt=[plate("pl.x", "0:2", Nrm("n.${i}", 0.1))])], [_J("joint", [active])]),
+            "an ignored object inside a plate template": (
+                [_J("joint", [plate("pl.a", "0:2", E("e.${i}", 0.4)), {"id": "junk", "type": "NoSuchType", "ignore": True}])], [_J("joint", [active])]),
+        }
+        n = 0
+        for what, (noisy, clean) in cases.items():
+            d1, e1 = _run_main_dry(copy.deepcopy(noisy))
+            d2, e2 = _run_main_dry(copy.deepcopy(clean))
+            n += 1
+            if e2 or "joint" not in d2:
+                raise Undecided("the reference specification of the contract does not load through main(): %s" % e2)
+            ids1, ids2 = sorted(map(str, d1)), sorted(map(str, d2))
+            if e1 or ids1 != ids2:
+                raise Refuted("main() on a specification with %s: %s; registered ids %s, the same file without the ignored parts registers %s" % (
+                    what, ("error: " + e1) if e1 else "loads", ids1, ids2), witness={"case": what, "spec": noisy}, confirmed=True,
+                    replay={"kind": "custom", "contract": "C13", "func": "replay_main_pipeline", "args": {}})
+            v1, v2 = float(d1["joint"]()), float(d2["joint"]())
+            if abs(v1 - v2) > 1e-12:
+                raise Refuted("main() on a specification with %s: the joint density is %r, without the ignored parts %r" % (what, v1, v2),
+                              witness={"case": what, "spec": noisy}, confirmed=True,
+                              replay={"kind": "custom", "contract": "C13", "func": "replay_main_pipeline", "args": {}})
+        return {"backend": "concrete", "cases": n, "bounded": "%d specification files" % n,
+                "statement": "specification files with ignored plates / comments inside plate templates / plates under underscore keys load through the real main() "
+                             "into the same registry and the same joint density as the files without those parts"}
+    return fn
+
+
+def replay_main_pipeline(args):
+    try:
+        ob_main_pipeline()()
+    except Refuted as e:
+        return False, e.detail
+    return True, "held"
 
 
 def ob_comments_no_effect():
@@ -1935,6 +2052,7 @@ def obligations(tier, seed):
     add("C13.reference.real.dangling", "B", ob_real_illformed("dangling"), "reference")
     add("C13.sharing.real", "B", ob_real_sharing(), "sharing")
     add("C13.comments.real", "B", ob_comments_no_effect(), "comments", funcs=FUNCS[4:5])
+    add("C13.main_pipeline", "B", ob_main_pipeline(), "comments, ignored objects and plates through the real main() (bounded)", funcs=FUNCS[4:5])
     for w in ("Parameter", "Distribution", "Distribution.refs", "DeterministicNormal", "BayesianBridge", "ScaleMixtureNormal"):
         add("C13.factory[%s]" % w, "B", ob_factory(w), "json_factory", funcs=[])
     add("C13.factory[Distribution, literal parameters]", "B", ob_factory_literals(), "json_factory", funcs=[])
